@@ -152,6 +152,14 @@ func vxGuard(_, _, _ string)     {}
 func vxNote(string)              {}
 func vxIsNilSlice(s []byte) bool { return s == nil }
 
+// vxAt reads b[i], or 0 when i is out of range (never panics).
+func vxAt(b []byte, i int) byte {
+	if i < 0 || i >= len(b) {
+		return 0
+	}
+	return b[i]
+}
+
 func vxExtent(s []byte) (lo, hi uintptr) {
 	if cap(s) == 0 {
 		return 0, 0
